@@ -635,3 +635,18 @@ def _lazy_value(it, key, raw, args):
 def _lazy_into_pair(it, key, raw, args):
     e = deref(args[0])
     return tup(e.fields[0].v, e.fields[1].v)
+
+
+# ---- ic_stable_structures::storable::Bound (enum read from the dependency's source by btc.load_dep_decls)
+@model('Bound::max_size')
+def _bound_max_size(it, key, raw, args):
+    b = deref(args[0])
+    if not b.fields:
+        raise Panic('Cannot get max size of unbounded type.')
+    return b.fields[0].v
+
+
+@model('Bound::is_fixed_size')
+def _bound_is_fixed(it, key, raw, args):
+    b = deref(args[0])
+    return b.fields[1].v if b.fields else SInt(0, 'bool')
